@@ -38,19 +38,21 @@ def _name(unit):
 
 class Mon(X.Monitor):
     '''ghost: the in-flight units whose target was removed from their node's `doing` by the failure/invalid
-    reply of ANOTHER unit while they were executing (used only to give dropped replies a stable signature)'''
+    reply of ANOTHER unit while they were executing (used only to give the consequences of that one cause -
+    dropped reply, second execution, wrong crew view - stable signatures)'''
 
     def reset(self):
         self.purged = frozenset()
+        self.tainted = frozenset()  # units released a second time while such a purged execution was in flight
 
     def state(self):
-        return self.purged
+        return (self.purged, self.tainted)
 
     def restore(self, st):
-        self.purged = st
+        self.purged, self.tainted = st
 
     def key(self):
-        return self.purged
+        return (self.purged, self.tainted)
 
     def after(self, sim, ev, rec):
         out = X.common_violations(PROPERTY, rec)
@@ -104,10 +106,14 @@ class Mon(X.Monitor):
                 )
         dup = [u for u, k in collections.Counter(post['running']).items() if k > 1]
         if dup:
+            if any(u in self.purged for u in dup):
+                self.tainted = self.tainted | {u for u in dup if u in self.purged}
             out.append(
                 {
                     'clause': 'C03.single-flight',
-                    'signature': 'two-executions-of-one-unit-in-flight',
+                    'signature': 'second-execution-after-purge-of-executing-dependent'
+                    if any(u in self.tainted for u in dup)
+                    else 'two-executions-of-one-unit-in-flight',
                     'observed': {'in_flight': sorted(post['running'])},
                     'expected': 'at most one execution per (algorithm, target) at any time',
                 }
@@ -151,10 +157,14 @@ class Mon(X.Monitor):
         want_busy = sorted(_name(u) for u in post['running'])
         got_busy = views['crew_busy'] if isinstance(views['crew_busy'], str) else sorted(views['crew_busy'])
         if got_busy != want_busy:
+            names = {_name(u) for u in self.tainted}
+            odd = set(got_busy if isinstance(got_busy, list) else []) ^ set(want_busy)
             out.append(
                 {
                     'clause': 'C03.crew-view',
-                    'signature': 'crew-busy-differs-from-in-flight',
+                    'signature': 'crew-busy-differs-after-purge-of-executing-dependent'
+                    if odd and odd <= names
+                    else 'crew-busy-differs-from-in-flight',
                     'observed': {'crew_busy': got_busy},
                     'expected': {'in_flight': want_busy},
                 }
